@@ -75,6 +75,7 @@ pub struct Info {
     pub invalid_side_blocks_stored: usize,
     pub second_restarts: usize,
     pub early_deliveries: usize,
+    pub crashes_during_restart: usize,
     /// second restart ended on another branch (finding F41's territory; not judged here)
     pub second_restart_other_branch: usize,
 }
@@ -132,6 +133,22 @@ fn check_rebooted(n: &mut NetNode, table: &BlockTable, allowed: &BTreeSet<SaitoH
             format!("after the restart the chain of the tip (height {}) contains block {} (height {}), which is invalid by construction and was never accepted onto the chain before the crash", tip_id, hx(&bad.hash), bad.id),
         ));
         return v;
+    }
+    // the chain of the restarted tip is connected: every ancestor that is not yet past the purge
+    // horizon (2 x genesis period below the tip) is held by the node
+    {
+        let chain = block_on(n.chain_lock.read());
+        // (what the node may have purged before the crash is bounded by the highest block of the
+        // history, not by the tip it came up on)
+        let highest = table.by_hash.values().map(|b| b.id).max().unwrap_or(tip_id).max(tip_id);
+        let horizon = highest.saturating_sub(2 * gp);
+        if let Some(missing) = path.iter().rev().find(|b| b.id > horizon && !chain.blocks.contains_key(&b.hash)) {
+            v.push((
+                format!("C12|chain_of_restarted_tip_not_connected|{ctxs}"),
+                format!("after the restart the tip is at height {} but its ancestor at height {} (above the purge horizon {}) is not held by the node: the chain does not reach back to what it is built on", tip_id, missing.id, horizon),
+            ));
+            return v;
+        }
     }
     // C03-style consistency on what the node keeps (heights it loaded)
     {
@@ -376,9 +393,55 @@ pub fn run_case(case: &Case, full: bool) -> (Vec<(String, String)>, Info) {
             return (v, info);
         }
         let allowed: BTreeSet<SaitoHash> = table.by_hash.keys().cloned().collect();
+        // the restart itself writes (it stores the blocks it loads again): its journal, before the
+        // follow-up checks extend the chain
+        let restart_journal = n.io.journal();
         v.extend(check_rebooted(&mut n, &table, &allowed, &invalid, gp, issued, "clean", &mut info, final_tip.1));
         if !v.is_empty() {
             return (v, info);
+        }
+        // ---- crash during the restart: the process dies while the restart is rewriting its files ----
+        if !restart_journal.is_empty() && !f37_applies(&final_files, &built) {
+            let stride2 = (restart_journal.len() / 6).max(1);
+            let mut files2 = final_files.clone();
+            for (k, op) in restart_journal.iter().enumerate() {
+                match op {
+                    JournalOp::Remove(key) => {
+                        files2.remove(key);
+                    }
+                    JournalOp::Write(key, bytes) => {
+                        if k % stride2 == 0 {
+                            for tear in [Tear::ZeroBytes, Tear::InsideHeader, Tear::LastByteMissing] {
+                                let content = match tear {
+                                    Tear::ZeroBytes => vec![],
+                                    Tear::InsideHeader => bytes[..bytes.len().min(BLOCK_HEADER_SIZE / 2)].to_vec(),
+                                    _ => bytes[..bytes.len() - 1].to_vec(),
+                                };
+                                let mut f = files2.clone();
+                                f.insert(key.clone(), content);
+                                let allowed2: BTreeSet<SaitoHash> = table.by_hash.iter().filter(|(_, b)| f.get(&format!("{}{}", BLOCK_DIR, b.get_file_name())).map(|c| c.len()) == Some(b.serialize_for_net(saito_core::core::consensus::block::BlockType::Full).len())).map(|(h, _)| *h).collect();
+                                let (mut n2, o2) = reboot(case.hist.ncfg, f);
+                                info.reboots += 1;
+                                info.torn_reboots += 1;
+                                info.crashes_during_restart += 1;
+                                let ctxs = format!("tear={:?}|during_restart", tear);
+                                if let HandlerOutcome::Panicked(site, msg) = o2 {
+                                    v.push((format!("C12|panic_on_restart|site={site}|{ctxs}"), format!("second restart after a crash at op {k} of the first restart's own journal panicked at {site}: {msg}")));
+                                    return (v, info);
+                                }
+                                let r = check_rebooted(&mut n2, &table, &allowed2, &invalid, gp, issued, &ctxs, &mut info, final_tip.1);
+                                if !r.is_empty() {
+                                    for (key, what) in r {
+                                        v.push((key, format!("crash at op {k}/{} of the restart's own journal: {what}", restart_journal.len())));
+                                    }
+                                    return (v, info);
+                                }
+                            }
+                        }
+                        files2.insert(key.clone(), bytes.clone());
+                    }
+                }
+            }
         }
     }
 
@@ -514,6 +577,7 @@ fn eval(c: &mut Ctx, case: &Case, counting: bool, full: bool) -> Vec<(String, St
             (info.invalid_side_blocks_stored, "invalid_side_block_on_disk_at_shutdown"),
             (info.second_restarts, "second_clean_restart_after_recovery_and_two_more_blocks"),
             (info.early_deliveries, "history_with_a_block_delivered_before_its_ancestors"),
+            (info.crashes_during_restart, "crash_points_inside_the_restart_itself(torn_rewrite)"),
             (info.second_restart_other_branch, "second_restart_on_another_branch(F41 territory, not judged)"),
         ] {
             if n > 0 {
@@ -574,11 +638,15 @@ fn arb_case_in_order(max_blocks: usize) -> impl Strategy<Value = Case> {
                     ];
                     b.bad_tx = Some((E[(sel / 2) % E.len()], 1, 0));
                 } else {
-                    const H: [crate::adversary::BlockEdit; 4] = [
+                    const H: [crate::adversary::BlockEdit; 6] = [
                         crate::adversary::BlockEdit::Treasury,
                         crate::adversary::BlockEdit::Graveyard,
                         crate::adversary::BlockEdit::PrevUnpaid,
                         crate::adversary::BlockEdit::AvgTotalFees,
+                        // rebroadcast outputs paid to another key (falls back to nothing if the block
+                        // has no rebroadcast transaction: then the sibling is simply a valid block)
+                        crate::adversary::BlockEdit::AtrRedirect,
+                        crate::adversary::BlockEdit::AtrRedirect,
                     ];
                     b.corrupt = Some(H[(sel / 2) % H.len()]);
                 }
@@ -596,6 +664,38 @@ pub fn run(ctx: &mut Ctx) {
     ctx.assumptions.push("Torn-write model: a crash during write_value leaves a prefix of the new content under the final name (RustIOHandler::write_value creates the file and write_all()s into it, no temp file / rename); remove_value is atomic. The native I/O handler itself is not executed.".into());
     ctx.assumptions.push("The rebooted node is configured with a static peer, as a joining node would be, so that it never mints a genesis block of its own when it finds no usable block file.".into());
     let full = ctx.tier == crate::ctx::Tier::Thorough;
+    // directed: past the window wrap, one stored-but-never-validated sibling (earlier timestamp, so
+    // its file sorts first at restart) whose rebroadcast outputs are paid to another key, or whose
+    // header lies; the history returns to the honest block and goes on
+    for gp in [4u64, 5] {
+        for at in [gp as usize + 2, gp as usize + 4] {
+            for edit in [crate::adversary::BlockEdit::AtrRedirect, crate::adversary::BlockEdit::Treasury] {
+                let n = at + 3;
+                let mut blocks: Vec<BlockSpec> = (0..n)
+                    .map(|i| BlockSpec {
+                        parent: None,
+                        dt: 250,
+                        gt: i % 2 == 0,
+                        creator: 0,
+                        miner: 1,
+                        txs: vec![TxSpec { payer: (i % 3 + 1) as u8, payee: 0, amount_sel: 3000, fee: 500 + i as u64, routers: vec![], with_path: false, max_inputs: 1, nft: false }],
+                        bad_tx: None,
+                        corrupt: None,
+                        back: None,
+                    })
+                    .collect();
+                blocks[at].back = Some(1);
+                blocks[at].dt = 100;
+                blocks[at].corrupt = Some(edit);
+                blocks[at + 1].back = Some(1);
+                let hist = HistSpec { ncfg: NodeCfg { gp, heartbeat: 100, social_stake: 0, loading_completed: false, prune: 8 }, treasury: 0, issuance: vec![(0, 50_000_000), (1, 60_000_000), (2, 70_000_000), (3, 80_000_000), (1, 5_000_000), (2, 6_000_000), (3, 7_000_000)], blocks, gt_policy: true };
+                let case = Case { hist, early: None };
+                for (k, w) in eval(ctx, &case, true, full) {
+                    ctx.violation(&k, w, json!({"check": "directed_unvalidated_sibling", "case": case}));
+                }
+            }
+        }
+    }
     let cases = ctx.tier.pick(20u32, 400);
     pbt_run(ctx, "crash_points", cases, arb_case(40), |c, case, counting| eval(c, case, counting, full));
 }
